@@ -250,13 +250,95 @@ def history_cases(ml):
         yield ('%s(preprocessor=X).fit(indicators); set_params(preprocessor=%s); %s(indicators)' % (cls, what, second), run, False)
 
 
+REPS = ('list', 'int64', 'int32', 'uint8', 'fortran', 'strided')
+
+
+def represent(A, kind):
+  """the same numbers (small non-negative integers) in another container / dtype / memory layout"""
+  A = np.asarray(A)
+  if kind == 'list':
+    return A.tolist()
+  if kind in ('int64', 'int32', 'uint8'):
+    return A.astype(kind)
+  if kind == 'fortran':
+    return np.asfortranarray(A.astype(float))
+  if kind == 'strided':
+    big = np.full((2 * A.shape[0],) + A.shape[1:], -3.0)
+    big[::2] = A
+    return big[::2]
+  raise ValueError(kind)
+
+
+def equivalence_cases(ml, seed):
+  """'lists, integer arrays, Fortran-ordered and non-contiguous arrays holding the same numbers as a float64 C array give the same
+  results': every estimator is fitted on integer-valued data in each representation, and queried in each representation"""
+  from . import c18 as H
+  D = H.small_data(seed)
+  D.X = np.round(D.X * 2.0) + 40.0          # integer-valued, within 0..255, rows stay distinct enough for every learner
+  D.Xq = np.round(D.Xq * 2.0) + 40.0
+  for name in PUBLIC:
+    def fitted(kind, name=name):
+      args = H.fit_args(name, D, False)
+      data = args[0] if kind is None else represent(args[0], kind)
+      est = getattr(ml, name)(**H.FAST[name])
+      with warnings.catch_warnings():
+        warnings.simplefilter('ignore')
+        est.fit(data, *args[1:])
+      return est
+    ref_box = {}
+
+    def reference(name=name, fitted=fitted):
+      if 'est' not in ref_box:
+        try:
+          ref_box['est'] = fitted(None)
+        except Exception as e:
+          ref_box['est'] = e
+      return ref_box['est']
+    for kind in REPS:
+      def run_fit(kind=kind, name=name, fitted=fitted, reference=reference):
+        ref = reference()
+        if isinstance(ref, Exception):
+          return 'returned'            # the float64 reference fit itself does not succeed on this data: nothing to compare
+        try:
+          est = fitted(kind)
+        except Exception as e:
+          return '%s: %s' % (type(e).__name__, str(e)[:80])
+        # another dtype / container becomes the very same float64 C array after validation: agreement to rounding of the conversion.  Another
+        # memory LAYOUT makes BLAS sum in another order, and an iterative solver amplifies those last-bit differences along its path
+        rt = 1e-3 if kind in ('fortran', 'strided') else 1e-7
+        if est.components_.shape != ref.components_.shape or not np.allclose(est.components_, ref.components_, rtol=rt, atol=rt * 1e-2 * np.abs(ref.components_).max()):
+          return 'components_ differ from the float64 C-array fit (max abs difference %.3g)' % float(
+              np.abs(est.components_ - ref.components_).max() if est.components_.shape == ref.components_.shape else np.inf)
+        return 'returned'
+      yield '%s.fit(<same numbers as %s>) equals the float64 fit' % (name, kind), run_fit, True
+    for kind in REPS:
+      def run_query(kind=kind, name=name, reference=reference):
+        ref = reference()
+        if isinstance(ref, Exception):
+          return 'returned'
+        with warnings.catch_warnings():
+          warnings.simplefilter('ignore')
+          try:
+            a = ref.transform(D.Xq.copy())
+            b = ref.transform(represent(D.Xq, kind))
+            P = D.X[D.P[:6]]
+            c = ref.pair_distance(P.copy())
+            d = ref.pair_distance(represent(P, kind))
+          except Exception as e:
+            return '%s: %s' % (type(e).__name__, str(e)[:80])
+        if not (np.allclose(a, b, rtol=1e-9, atol=1e-12) and np.allclose(c, d, rtol=1e-9, atol=1e-12)):
+          return 'transform / pair_distance differ from the float64 C-array query'
+        return 'returned'
+      yield '%s queries on <same numbers as %s> equal the float64 queries' % (name, kind), run_query, True
+
+
 def run(tier, seed):
   ml = repo()
   cases = 0
   vio = []
   samples = []
   seen = set()
-  for desc, thunk, valid in itertools.chain(iterate(ml, tier), fit_cases(ml), history_cases(ml)):
+  for desc, thunk, valid in itertools.chain(iterate(ml, tier), fit_cases(ml), history_cases(ml), equivalence_cases(ml, seed)):
     cases += 1
     got = thunk()
     seen.add(desc)
